@@ -43,6 +43,10 @@ var allFields = []FieldDef{
 }
 
 func fdef(name string) FieldDef {
+	if name == "_docID" {
+		// only as an order key
+		return FieldDef{Name: "_docID", Kind: "str"}
+	}
 	for _, f := range allFields {
 		if f.Name == name {
 			return f
